@@ -89,7 +89,7 @@ where
             }
         };
         self.target
-            .write(json_txt.as_bytes())
+            .write_all(json_txt.as_bytes())
             .map_err(|e| SinkError(e.into()))?;
         Ok(self)
     }
